@@ -231,7 +231,9 @@ fn run_dyn(subject: &str, params: &Value, prog: &[Value], xs: &[In]) -> Vec<Valu
 			}
 			"snapshot" => {
 				let text = hs[h as usize].as_ref().unwrap().snapshot();
-				let back = match restore(subject, &text) {
+				// a NaN in the state (VWMA on zero total volume, ...) cannot be carried by JSON: clone instead
+				let back = if text.contains("null") { Ok(Ok(hs[h as usize].as_ref().unwrap().boxed_clone())) } else { restore(subject, &text) };
+				let back = match back {
 					Ok(Ok(m)) => m,
 					Ok(Err(e)) => panic!("deserialize: {e}: {text}"),
 					Err(e) => panic!("deserialize panicked: {e}"),
